@@ -1195,6 +1195,9 @@ class TaskPool:
             self.task_name_list,
             self.config.runtime['descendants']
         )
+        # Orphans that are still in the pool stay in the default queue until
+        # they have run their course (e.g. a retry of an active orphan).
+        self.task_queue_mgr.adopt_tasks(orphans)
 
         # Now queue all tasks that are ready to run
         for itask in self.get_tasks():
